@@ -1,9 +1,115 @@
-(* C13 - kruskal and prim: property theorems (filled in as the proofs land). *)
+(* C13 - kruskal and prim return minimum spanning trees (or say why not): property theorems.
+   Model: SV.C13.Mst (solvor/mst.py over the C20 UnionFind model); specification: SV.C13.MstSpec. *)
 From Coq Require Import List ZArith.
-From SV Require Import C13.Mst C13.MstSpec.
+From SV Require Import C20.UFSpec C13.Mst C13.MstSpec C13.GraphLemmas C13.KruskalProofs.
+From SV Require Import C13.ForestCount C13.PrimProofs C13.MstSpecProofs C13.Greedy C13.KruskalMin C13.AgreeProofs.
 Import ListNotations.
 
-Example C13_model_example :
-  obs_of (kruskal 4 [(0,1,4%Z); (0,2,3%Z); (1,2,2%Z); (1,3,5%Z); (2,3,6%Z)] false)
-  = ODone (OPTIMAL, Some [(1,2,2%Z); (0,2,3%Z); (1,3,5%Z)], Some 10%Z) 4 5.
-Proof. vm_compute. reflexivity. Qed.
+(* kruskal, all inputs the validators accept (n_nodes >= 1, end points in range), every allow_forest:
+   the call returns a Result (the union-find model never runs out of fuel) which satisfies kruskal_spec:
+   OPTIMAL   -> solution t is a spanning forest of the input (edges of the input, every edge a bridge,
+                connects exactly what the input connects), n-1 edges, objective = total weight, graph connected;
+   FEASIBLE  -> allow_forest, spanning forest with n - #components < n-1 edges, objective = total weight, not connected;
+   INFEASIBLE-> not allow_forest, no solution, objective inf, graph not connected. *)
+Theorem C13_kruskal_forest : forall n edges allow_forest, kruskal_valid n edges = true ->
+  exists r, kruskal n edges allow_forest = Done r /\
+            kruskal_spec n edges allow_forest (r_status r, r_solution r, r_objective r).
+Proof. exact kruskal_forest. Qed.
+Print Assumptions C13_kruskal_forest.
+
+(* the accepted edges themselves (also when the Result hides them behind INFEASIBLE) *)
+Theorem C13_kruskal_accepted : forall n edges, kruskal_valid n edges = true ->
+  exists acc tot iters,
+    kruskal_core n edges = Some (acc, tot, iters) /\
+    spanning_forest edges acc /\ incr_forest acc /\ tot = weight acc /\
+    num_classes n (connects edges) (n - length acc) /\ length acc <= n - 1 /\
+    iters <= length edges /\ greedy [] (sort_edges edges) acc.
+Proof. exact kruskal_core_forest. Qed.
+Print Assumptions C13_kruskal_accepted.
+
+Example C13_kruskal_nonvacuous :
+  kruskal_valid 4 [(0,1,4%Z); (0,2,3%Z); (1,2,2%Z); (1,3,5%Z); (2,3,6%Z); (3,3,1%Z); (2,1,2%Z)] = true /\
+  obs_of (kruskal 4 [(0,1,4%Z); (0,2,3%Z); (1,2,2%Z); (1,3,5%Z); (2,3,6%Z); (3,3,1%Z); (2,1,2%Z)] false)
+  = ODone (OPTIMAL, Some [(1,2,2%Z); (0,2,3%Z); (1,3,5%Z)], Some 10%Z) 6 7 /\
+  obs_of (kruskal 4 [(0,1,1%Z); (2,3,1%Z)] true) = ODone (FEASIBLE, Some [(0,1,1%Z); (2,3,1%Z)], Some 2%Z) 2 2 /\
+  obs_of (kruskal 4 [(0,1,1%Z); (2,3,1%Z)] false) = ODone (INFEASIBLE, None, None) 2 2.
+Proof. vm_compute. repeat split. Qed.
+
+(* prim, every adjacency dict with distinct keys and every start that is a node (or None): the call returns a
+   Result (the loop never runs out of fuel) which satisfies prim_spec:
+   OPTIMAL    -> the edges are arcs of the dict, acyclic, connect start to exactly the nodes of the graph,
+                 |nodes| - 1 edges, objective = total weight, every node reachable from start;
+   INFEASIBLE -> no solution, objective inf, some node is not reachable from start along the adjacency lists. *)
+Theorem C13_prim_tree : forall g start, prim_valid g start = true ->
+  exists r, prim g start = Done r /\ prim_spec g start (r_status r, r_solution r, r_objective r).
+Proof. exact prim_tree. Qed.
+Print Assumptions C13_prim_tree.
+
+(* undirected reading (symmetric adjacency dict): OPTIMAL iff every node is connected to start *)
+Theorem C13_prim_tree_undirected : forall g start,
+  prim_valid g start = true -> symmetricb g = true -> g <> [] ->
+  exists r, prim g start = Done r /\
+    prim_spec g start (r_status r, r_solution r, r_objective r) /\
+    (r_status r = OPTIMAL <-> forall x, is_node g x -> connects (arcs g) (prim_start g start) x) /\
+    (r_status r = INFEASIBLE <-> exists x, is_node g x /\ ~ connects (arcs g) (prim_start g start) x).
+Proof. exact prim_tree_undirected. Qed.
+Print Assumptions C13_prim_tree_undirected.
+
+Example C13_prim_nonvacuous :
+  let g := [(0, [(1,4%Z); (2,3%Z)]); (1, [(0,4%Z); (2,2%Z); (3,5%Z)]);
+            (2, [(0,3%Z); (1,2%Z); (3,6%Z)]); (3, [(1,5%Z); (2,6%Z)])] in
+  prim_valid g (Some 3) = true /\ symmetricb g = true /\
+  obs_of (prim g (Some 3)) = ODone (OPTIMAL, Some [(3,1,5%Z); (1,2,2%Z); (2,0,3%Z)], Some 10%Z) 3 5 /\
+  obs_of (prim [(0, [(1,1%Z)]); (1, [(0,1%Z)]); (2, [])] None) = ODone (INFEASIBLE, None, None) 1 1.
+Proof. vm_compute. repeat split. Qed.
+
+(* the boolean checkers the harness applies to IMPLEMENTATION outputs are sound for the specification *)
+Theorem C13_kruskal_check_sound : forall n edges af o,
+  kruskal_check n edges af o = true -> kruskal_spec n edges af o.
+Proof. exact kruskal_check_sound. Qed.
+Print Assumptions C13_kruskal_check_sound.
+
+Theorem C13_prim_check_sound : forall g start o, prim_check g start o = true -> prim_spec g start o.
+Proof. exact prim_check_sound. Qed.
+Print Assumptions C13_prim_check_sound.
+
+(* kruskal, minimality: the returned edge list has minimum total weight among ALL spanning forests of the
+   input multigraph (kruskal_spec_min = kruskal_spec + minimum), for every valid input and allow_forest. *)
+Theorem C13_kruskal_min : forall n edges allow_forest, kruskal_valid n edges = true ->
+  exists r, kruskal n edges allow_forest = Done r /\
+            kruskal_spec_min n edges allow_forest (r_status r, r_solution r, r_objective r).
+Proof. exact kruskal_forest_min. Qed.
+Print Assumptions C13_kruskal_min.
+
+(* the graph-theoretic core: scanning edges by non-decreasing weight and keeping the bridges is optimal *)
+Theorem C13_greedy_min : forall n es acc out, greedy acc es out -> sortedw es -> in_range n (acc ++ es) ->
+  exists added, out = acc ++ added /\ forall F, competitor acc es F -> (weight added <= weight F)%Z.
+Proof. exact greedy_min. Qed.
+Print Assumptions C13_greedy_min.
+
+(* prim, minimality and agreement: NOT proved (needs the cut property along prim's heap order: heap sortedness
+   invariant + exchange with a crossing edge of a minimum spanning tree).  Full statements kept here; covered by
+   the exhaustive spanning-tree oracle of the harness (<= 7 nodes) only. *)
+Definition C13_prim_min_full_statement : Prop :=
+  forall g start r t, prim_valid g start = true -> symmetricb g = true ->
+    prim g start = Done r -> r_solution r = Some t -> minimum (arcs g) t.
+Definition C13_agree_full_statement : Prop :=
+  forall g start r t n acc tot iters, prim_valid g start = true -> symmetricb g = true -> g <> [] ->
+    prim g start = Done r -> r_solution r = Some t ->
+    kruskal_valid n (arcs g) = true -> kruskal_core n (arcs g) = Some (acc, tot, iters) ->
+    r_objective r = Some tot.
+
+(* proved half of the agreement: prim's tree is a spanning forest of the arc list, hence (kruskal's minimality)
+   kruskal's objective on the same edges is <= prim's objective, which is the weight of prim's tree *)
+Theorem C13_agree_partial : forall g start r t n acc tot iters,
+  prim_valid g start = true -> g <> [] -> prim g start = Done r -> r_solution r = Some t ->
+  kruskal_valid n (arcs g) = true -> kruskal_core n (arcs g) = Some (acc, tot, iters) ->
+  (tot <= weight t)%Z /\ r_objective r = Some (weight t).
+Proof. exact kruskal_le_prim. Qed.
+Print Assumptions C13_agree_partial.
+
+Theorem C13_prim_min_partial : forall g start r t, prim_valid g start = true -> g <> [] ->
+  prim g start = Done r -> r_solution r = Some t ->
+  r_status r = OPTIMAL /\ r_objective r = Some (weight t) /\ spanning_forest (arcs g) t.
+Proof. exact prim_solution_spanning. Qed.
+Print Assumptions C13_prim_min_partial.
